@@ -13,7 +13,17 @@ Proof.
   assert (SK : s * k <> 0) by (apply Z.neq_mul_0; split; assumption).
   intros j Hj. rewrite (seq_len_char _ _ _ j SK Hj), (seq_len_char _ _ _ j Hk Hj).
   unfold before_stop, seq_at.
-  destruct (Z_lt_le_dec 0 s); destruct (Z_lt_le_dec 0 k); split; intros [P N]; split; intros; nia.
+  replace (a + s * i0 + j * (s * k)) with (a + s * (i0 + j * k)) by ring.
+  set (X := i0 + j * k).
+  destruct (Z_lt_le_dec 0 s) as [Ps|Ns]; destruct (Z_lt_le_dec 0 k) as [Pk|Nk].
+  - assert (0 < s * k) by (apply Z.mul_pos_pos; lia).
+    pose proof (Z.mul_lt_mono_pos_l s X i1 Ps). lia.
+  - assert (s * k < 0) by (apply Z.mul_pos_neg; lia).
+    pose proof (Z.mul_lt_mono_pos_l s i1 X Ps). lia.
+  - assert (s * k < 0) by (apply Z.mul_neg_pos; lia).
+    pose proof (Z.mul_lt_mono_neg_l s X i1 ltac:(lia)). lia.
+  - assert (0 < s * k) by (apply Z.mul_neg_neg; lia).
+    pose proof (Z.mul_lt_mono_neg_l s i1 X ltac:(lia)). lia.
 Qed.
 
 (* the guard: the three products/sums computed by Slice stay inside int64 *)
@@ -65,6 +75,9 @@ Lemma range_slice_refuted :
       range_slice r s e k = None).
 Proof.
   split.
-  - eexists. eexists. eexists. eexists. eexists. vm_compute. repeat split.
-  - eexists. eexists. eexists. eexists. vm_compute. repeat split.
+  - exists {| r_start := 0; r_stop := 9223372036854775807; r_step := 4611686018427387904; r_len := 2 |}, 0, 2, 1,
+           {| r_start := 0; r_stop := -9223372036854775808; r_step := 4611686018427387904; r_len := 0 |}.
+    vm_compute. repeat split.
+  - exists {| r_start := 0; r_stop := 10; r_step := 4611686018427387904; r_len := 1 |}, 0, 1, 4.
+    vm_compute. repeat split.
 Qed.
